@@ -124,16 +124,23 @@ fn parse_ops(s: &str) -> Vec<Op> {
     ops
 }
 
-fn typed(ty: &str, tok: Token) -> Result<()> {
-    macro_rules! conv { ($t:ty) => { <$t>::try_from(tok).map(|_| ()) }; }
+/// typed pull through the library's own Parameters::next_data::<T> / next_optional_data::<T>;
+/// Ok(true): converted, Ok(false): absent (optional only)
+fn typed_pull(ty: &str, req: bool, params: &mut Parameters) -> Result<bool> {
+    macro_rules! pull {
+        ($t:ty) => { if req { params.next_data::<$t>().map(|_| true) } else { params.next_optional_data::<$t>().map(|o| o.is_some()) } };
+        ($t:ty, $f:expr) => {
+            if req { params.next_data::<$t>().and_then($f).map(|_| true) }
+            else { match params.next_optional_data::<$t>()? { Some(v) => $f(v).map(|_| true), None => Ok(false) } }
+        };
+    }
     match ty {
-        "i8" => conv!(i8), "u8" => conv!(u8), "i16" => conv!(i16), "u16" => conv!(u16), "i32" => conv!(i32), "u32" => conv!(u32),
-        "i64" => conv!(i64), "u64" => conv!(u64), "isize" => conv!(isize), "usize" => conv!(usize),
-        "f32" => conv!(f32), "f64" => conv!(f64), "bool" => conv!(bool), "bytes" => conv!(&[u8]), "str" => conv!(&str),
-        "arb" => conv!(Arbitrary), "chr" => conv!(Character), "expr" => conv!(Expression),
-        "nlist" => { let l = NumericList::try_from(tok)?; for e in l { e?; } Ok(()) }
-        "clist" => {
-            let l = ChannelList::try_from(tok)?;
+        "i8" => pull!(i8), "u8" => pull!(u8), "i16" => pull!(i16), "u16" => pull!(u16), "i32" => pull!(i32), "u32" => pull!(u32),
+        "i64" => pull!(i64), "u64" => pull!(u64), "isize" => pull!(isize), "usize" => pull!(usize),
+        "f32" => pull!(f32), "f64" => pull!(f64), "bool" => pull!(bool), "bytes" => pull!(&[u8]), "str" => pull!(&str),
+        "arb" => pull!(Arbitrary), "chr" => pull!(Character), "expr" => pull!(Expression),
+        "nlist" => pull!(NumericList, |l: NumericList| -> Result<()> { for e in l { e?; } Ok(()) }),
+        "clist" => pull!(ChannelList, |l: ChannelList| -> Result<()> {
             for e in l {
                 use scpi::parser::expression::channel_list::Token as CT;
                 let specs = match e? { CT::ChannelSpec(a) => vec![a], CT::ChannelRange(a, b) => vec![a, b], _ => vec![] };
@@ -146,7 +153,7 @@ fn typed(ty: &str, tok: Token) -> Result<()> {
                 }
             }
             Ok(())
-        }
+        }),
         _ => panic!("bad type {}", ty),
     }
 }
@@ -156,20 +163,21 @@ impl Scripted {
         d.log.push(Entry::Call(self.id, query));
         for op in ops {
             match op {
-                Op::Pull { req, swallow, ty } => {
-                    let r = if *req { params.next_token().map(Some) } else { params.next_optional_token() };
-                    match r {
-                        Ok(Some(t)) => match ty {
-                            None => d.log_tok(&t),
-                            Some(ty) => match typed(ty, t) {
-                                Ok(()) => d.log.push(Entry::Typed),
-                                Err(e) => { d.log.push(Entry::PullErr(e.get_code())); if !*swallow { return Err(e); } }
-                            },
-                        },
-                        Ok(None) => d.log.push(Entry::Absent),
-                        Err(e) => { d.log.push(Entry::PullErr(e.get_code())); if !*swallow { return Err(e); } }
+                Op::Pull { req, swallow, ty } => match ty {
+                    None => {
+                        let r = if *req { params.next_token().map(Some) } else { params.next_optional_token() };
+                        match r {
+                            Ok(Some(t)) => d.log_tok(&t),
+                            Ok(None) => d.log.push(Entry::Absent),
+                            Err(e) => { d.log.push(Entry::PullErr(e.get_code())); if !*swallow { return Err(e); } }
+                        }
                     }
-                }
+                    Some(ty) => match typed_pull(ty, *req, &mut params) {
+                        Ok(true) => d.log.push(Entry::Typed),
+                        Ok(false) => d.log.push(Entry::Absent),
+                        Err(e) => { d.log.push(Entry::PullErr(e.get_code())); if !*swallow { return Err(e); } }
+                    },
+                },
                 Op::Hdr(h) => { if let Some(r) = resp.as_mut() { r.header(h); } }
                 Op::Data(it) => {
                     if let Some(r) = resp.as_mut() {
